@@ -3503,14 +3503,10 @@ func appendSlice(n *node) {
 }
 
 func _append(n *node) {
-	if len(n.child) == 3 {
-		c1, c2 := n.child[1], n.child[2]
-		if (c1.typ.cat == valueT || c2.typ.cat == valueT) && c1.typ.rtype == c2.typ.rtype ||
-			isArray(c2.typ) && c2.typ.elem().id() == n.typ.elem().id() ||
-			isByteArray(c1.typ.TypeOf()) && isString(c2.typ.TypeOf()) {
-			appendSlice(n)
-			return
-		}
+	if n.action == aCallSlice {
+		// The last argument is the slice (or string) of the values to append, as in append(s, t...).
+		appendSlice(n)
+		return
 	}
 
 	dest := genValueOutput(n, n.typ.rtype)
